@@ -1,4 +1,5 @@
 import ConduitModel.Proofs.SrcAckProgress
+import ConduitModel.Proofs.SrcAckRead
 
 /-!
 # C06 — graceful stop drains (source side: `Source.Teardown` / `WaitPersisted`)
@@ -128,6 +129,105 @@ theorem C06_wait_persisted_enabled (c : Cfg) (s : St) (h : ReachH c s) (hd : s.t
     exact ⟨{ s with swDone := true },
       by simp [step, hh.alive, hd, Td.isDone, hsw, hg, Gen.writeDone, Gen.callbacksDone, this.1, this.2], rfl⟩
 
+/-! ### The stop position (`Source.Stop`) and the v1 `SourceNode` stop protocol
+
+"the stop always completes … every connector that was opened has been torn down": in the v1 engine a
+graceful stop asks the source plugin for the position of the last record it handed out
+(`Source.Stop`), sends it to the `SourceNode` loop as a control message, and the loop ends — so that
+the deferred `Source.Teardown` (M3's `tdBegin`) can run — once the record it processed last carries
+exactly that position. Read-side layer `rstep` over M3 (`Model/SrcAck.lean`), code shape
+`fallback = false` = `Source.Stop` returns exactly the plugin's reply (regenerated fact
+`sourceStopReturnsPluginReply`, `Facts/C06.lean`). All event lists: any number of runs (crash /
+restart with a stored position), records, acks, flushes, stop at any instant. -/
+
+/-- C06 `stop_position_is_last_read` — the position `Source.Stop` returns in a run is the position
+of the last record the plugin handed out in THIS run, or empty if it handed out none — never a
+position from an earlier run or the stored state (every position of this run lies strictly after
+the position the plugin was opened with). -/
+theorem C06_stop_position_is_last_read (c : Cfg) (s : RSt) (h : RReach c false s) (r : Option Pos)
+    (hf : s.r.fetched = some r) : r = s.r.out ∧ ∀ p, r = some p → openPos s.m < p := by
+  have hi := rinv_reach h
+  have := hi.fet r hf
+  exact ⟨this, fun p hp => hi.outGt p (by rw [← this]; exact hp)⟩
+
+/-- … so once the stop control message has been processed and every record the plugin handed out
+has been processed too, the node has left its loop (and `Source.Teardown` may begin): with an empty
+stop position (idle run, also one resumed from a stored position) that is immediately, with the
+last-read position right after that record. -/
+theorem C06_v1_source_node_ends (c : Cfg) (s : RSt) (h : RReach c false s)
+    (hctl : s.r.ctl = true) (hq : s.r.q = []) : s.r.ended = true := by
+  have hi := rinv_reach h
+  cases hen : s.r.ended with
+  | true => rfl
+  | false =>
+    obtain ⟨r, hr, hne⟩ := hi.ctlNE hctl hen
+    have := hi.fet r hr
+    rw [hi.qNil hq] at hne
+    exact absurd this hne
+
+/-- progress of the stop protocol: after `Source.Stop`, as long as the node has not left its loop,
+processing the control message or the next already-handed-out record is enabled, and each lowers
+`|q| + [control message outstanding]` (the plugin hands out nothing after Stop). -/
+theorem C06_v1_stop_no_deadlock (c : Cfg) (s : RSt) (h : RReach c false s) (hal : s.m.alive = true)
+    (r : Option Pos) (hf : s.r.fetched = some r) (hen : s.r.ended = false) :
+    (∃ s', rstep c false s .ctl = some s' ∧ s'.r.q.length + (if s'.r.ctl then 0 else 1) < s.r.q.length + (if s.r.ctl then 0 else 1)) ∨
+    (∃ s', rstep c false s .nodeRead = some s' ∧ s'.r.q.length + (if s'.r.ctl then 0 else 1) < s.r.q.length + (if s.r.ctl then 0 else 1)) := by
+  cases hc : s.r.ctl with
+  | false =>
+    left
+    exact ⟨{ s with r := { s.r with ctl := true, ended := r == s.r.nlast } }, by simp [rstep, hf, hal, hc, hen], by simp [hc]⟩
+  | true =>
+    right
+    cases hq : s.r.q with
+    | nil => rw [C06_v1_source_node_ends c s h hc hq] at hen; simp at hen
+    | cons p rest =>
+      exact ⟨{ s with r := { s.r with q := rest, nlast := some p, ended := s.r.ctl && s.r.fetched == some (some p) } },
+        by simp [rstep, hq, hal, hen], by simp [hc, hq]⟩
+
+/-- the seeded scenario, for every reachable state and every stored position: restart (the run
+resumes from the stored position), no record, graceful stop: `Source.Stop` returns the empty position
+and the node ends as soon as it sees the control message. -/
+theorem C06_v1_restart_idle_stop_ends (c : Cfg) (s s1 s2 s3 : RSt)
+    (h1 : rstep c false s (.m .restart) = some s1) (h2 : rstep c false s1 .stopRpc = some s2)
+    (h3 : rstep c false s2 .ctl = some s3) : s2.r.fetched = some none ∧ s3.r.ended = true := by
+  simp only [rstep, Option.map_eq_some_iff] at h1
+  obtain ⟨m1, _, rfl⟩ := h1
+  simp only [rstep] at h2
+  split at h2
+  · injection h2 with h2; subst h2
+    simp only [rstep, stopResult] at h3
+    split at h3
+    · injection h3 with h3; subst h3; simp [stopResult]
+    · simp at h3
+  · simp at h2
+
+/-- the other code shape (`fallback = true`: an empty plugin reply is replaced by the stored position)
+breaks exactly this: resumed from a stored position `x`, stopped idle, the node is told to stop at `x`,
+a record it will never read — it stays in its loop, nothing on the read side is enabled any more and
+`Source.Teardown` cannot begin. -/
+theorem C06_v1_stop_fallback_hangs (c : Cfg) (s s1 s2 s3 : RSt) (x : Pos)
+    (h1 : rstep c true s (.m .restart) = some s1) (hx : s.m.store.pos = some x)
+    (h2 : rstep c true s1 .stopRpc = some s2) (h3 : rstep c true s2 .ctl = some s3) :
+    s2.r.fetched = some (some x) ∧ s3.r.ended = false ∧
+    rstep c true s3 .nodeRead = none ∧ rstep c true s3 .ctl = none ∧ rstep c true s3 .stopRpc = none ∧
+    (∀ p, rstep c true s3 (.emit p) = none) ∧ rstep c true s3 (.m .tdBegin) = none := by
+  simp only [rstep, Option.map_eq_some_iff] at h1
+  obtain ⟨m1, hm1, rfl⟩ := h1
+  have hinst : m1.inst.pos = some x := by
+    simp only [step] at hm1
+    split at hm1
+    · injection hm1 with hm1; subst hm1; exact hx
+    · simp at hm1
+  simp only [rstep] at h2
+  split at h2
+  · injection h2 with h2; subst h2
+    simp only [rstep, stopResult, hinst] at h3
+    split at h3
+    · injection h3 with h3; subst h3
+      simp [rstep, stopResult, hinst]
+    · simp at h3
+  · simp at h2
+
 /-! ### Non-vacuity -/
 
 def cfg6 : Cfg := { maxRetries := 3, bundleThr := 0, txFailCallbacks := false, stopAfterDrop := false }
@@ -182,5 +282,11 @@ theorem C06_F11_stop_and_wait_hangs (e : Ev) (s' : St) (h : step cfg6 f11State e
     exfalso; revert h
     simp [step, f11State, f11Run, run, cfg6, init, persist, doTrigger, setGen, noWriting, Td.isDone,
       Gen.writeDone, Gen.callbacksDone]
+
+/-- run, ack, restart from the stored position 2, one more record, stop: Stop returns 3 and the node
+ends after processing record 3 -/
+example : (rrun cfg6 false rinit [.emit 1, .emit 2, .nodeRead, .nodeRead, .m (.ack [1, 2]), .m .trigger, .m (.flushRes .ok),
+    .m .crash, .m .restart, .emit 3, .stopRpc, .ctl, .nodeRead]).map
+    (fun s => (s.r.fetched, s.r.ended, openPos s.m)) = some (some (some 3), true, 2) := by decide
 
 end Conduit.SrcAck
